@@ -94,9 +94,11 @@ def run_case(case, ctx):
                 module = PurificationRBM(nv_, num_hidden=nh_, gpu=False) if dmode == 2 else PurificationRBM(nv_, num_aux=na_, gpu=False)
                 ctx.count("partially_defaulted_sizes")
             else:
-                module = PurificationRBM(nv_, None if default_h else nh_, None if default_h else na_, gpu=False)
+                module = PurificationRBM(nv_, None if default_h else nh_, None if default_h else na_, zero_weights=bool(i % 4 == 3), gpu=False)
         else:
-            module = BinaryRBM(nv_, None if default_h else nh_, gpu=False)
+            # (also RBMs built with zero_weights=True and filled in by hand: how the module was built is no longer visible in a
+            # state that is later reinitialised)
+            module = BinaryRBM(nv_, None if default_h else nh_, zero_weights=bool(i % 4 == 3), gpu=False)
         for n_, p_ in module.named_parameters():  # non-zero biases so that "equal values" is informative
             p_.data.copy_(torch.tensor(gen._tensor(rng, tuple(p_.shape), 0.7)))
         if kind == "mixed":
@@ -197,6 +199,10 @@ def run_case(case, ctx):
                 ctx.violation("reinit-shapes", "reinitialize_parameters changed parameter shapes", tags=tags)
             else:
                 for k, v in now.items():
+                    # "redraws all networks' parameters": the weights are random again (no zero / repeated entries), biases zero
+                    if "weights" in k and (not bool((v.data != 0).all()) or not bool(torch.isfinite(v.data).all())):
+                        ctx.violation("reinit-not-redrawn", f"{k} has zero / non-finite entries after reinitialize_parameters (not redrawn at random)",
+                                      tags=dict(tags, net=k.split('.')[0], param=k.split('.')[1], zeros=True))
                     # every parameter that carried information (non-zero somewhere) must have been redrawn / reset
                     if bool((vals0[k] != 0).any()) and torch.equal(v.data, vals0[k]):
                         ctx.violation("reinit-not-redrawn", f"{k} kept its previous value {vals0[k].reshape(-1)[:3].tolist()} after "
